@@ -372,15 +372,22 @@ def nsConfig : List KVs → Except CErr KVs
     | .error e => .error e
     | .ok acc => mergeKVs acc outer
 
-/-- what `execute` hands to `load_collection`: with `called_as = None` (pre/post tasks, the
-    default task) only the ROOT collection's own settings -/
-def collectionLevel (calledAsNone : Bool) (cfgs : List KVs) : Except CErr KVs :=
+/-- what `execute` hands to `load_collection`: `Collection.configuration(name)` where `name` is the name
+    the task was called by or, for a call without a name (pre/post tasks, the default task), the first
+    name under which the collection HOLDS the task object (`Executor._name_of`); `cfgs` are the settings
+    along that name's namespace path.  Only a task object the collection does not hold at all
+    (`unheld`) gets the ROOT collection's own settings. -/
+def collectionLevel (unheld : Bool) (cfgs : List KVs) : Except CErr KVs :=
+  if unheld then copyDict (cfgs.headD []) else nsConfig cfgs
+
+/-- the behaviour before the repair of finding #23: EVERY call without a name got the root's settings -/
+def collectionLevelPinned (calledAsNone : Bool) (cfgs : List KVs) : Except CErr KVs :=
   if calledAsNone then copyDict (cfgs.headD []) else nsConfig cfgs
 
 /-- `config.load_collection(…); config.load_shell_env()` -/
-def Cfg.taskStep (c : Cfg) (calledAsNone : Bool) (cfgs : List KVs)
+def Cfg.taskStep (c : Cfg) (unheld : Bool) (cfgs : List KVs)
     (environ : List (List Char × List Char)) : Except CErr Cfg :=
-  match collectionLevel calledAsNone cfgs with
+  match collectionLevel unheld cfgs with
   | .error e => .error e
   | .ok lvl => match c.load .collection lvl with
     | .error e => .error e
